@@ -1190,6 +1190,87 @@ def check_plan_updater(chk, F):
                        where="src/plan.rs")
 
 
+# ---- R14.17 Plan::update_psbt_input: taproot fields ----------------------------------------------------------------------------
+
+def check_plan_updater_taproot(chk, F):
+    from ..builtins import deref, PyMap
+    R = "R14.17"
+    chk.rule(R, "Plan::update_psbt_input for a tr() plan records the BIP-371 fields a signer needs: the merkle root; for a key-spend "
+                "plan the internal key and its origin (no leaf hashes); for a script-spend plan the leaf script under its control "
+                "block and, for every key that signs, its origin *with the hash of the leaf it signs in* - on a fresh input as "
+                "well as on one that already lists the key for another leaf (the leaf is added once, the others kept)")
+    try:
+        fn = [q for q in F.fns if q.startswith("plan::Plan") and q.endswith("::update_psbt_input")][0]
+    except IndexError:
+        chk.fail(R, "anchor", "Plan::update_psbt_input not found", kind="unanalysable")
+        return
+    chk.saw(fn)
+    PH = "miniscript::satisfy::Placeholder"
+    SST = "miniscript::satisfy::SchnorrSigType"
+    h = {}
+    h["descriptor::tr::Tr::<Pk>::spend_info"] = lambda m_, a, c: Term("spend_info")
+    h["descriptor::tr::spend_info::TrSpendInfo::<Pk>::merkle_root"] = lambda m_, a, c: some(Term("merkle_root"))
+    h["ToPublicKey::to_x_only_pubkey"] = lambda m_, a, c: ("xonly", deref(a[0]))
+    h["miniscript::ToPublicKey::to_x_only_pubkey"] = h["ToPublicKey::to_x_only_pubkey"]
+    h["descriptor::key::DefiniteDescriptorKey::master_fingerprint"] = lambda m_, a, c: ("fp", deref(a[0]))
+    h["descriptor::key::DefiniteDescriptorKey::full_derivation_paths"] = lambda m_, a, c: PyVec([("path", deref(a[0]))])
+    L1, L2 = ("leafhash", 1), ("leafhash", 2)
+
+    def sig(k, leaf):
+        st = Adt(SST, "KeySpend", {"merkle_root": NONE}) if leaf is None else Adt(SST, "ScriptSpend", {"leaf_hash": leaf})
+        return Adt(PH, "SchnorrSigPk", {"0": k, "1": st, "2": 64})
+    script = [Adt(PH, "TapScript", {"0": Term("leafscript")}), Adt(PH, "TapControlBlock", {"0": Term("cb")})]
+    src = lambda k: (("fp", k), ("path", k))
+    cases = [
+        # name, template, origins before, (origins after, internal key after, scripts after)
+        ("key-spend", [sig("IK", None)], [], ([(("xonly", "IK"), ([], src("IK")))], some(("xonly", "IK")), [])),
+        ("script-spend|fresh", [sig("A", L1)] + script, [], ([(("xonly", "A"), ([L1], src("A")))], None, [(Term("cb"), Term("leafscript"))])),
+        ("script-spend|two-keys", [sig("A", L1), sig("B", L1)] + script, [],
+         ([(("xonly", "A"), ([L1], src("A"))), (("xonly", "B"), ([L1], src("B")))], None, [(Term("cb"), Term("leafscript"))])),
+        ("script-spend|key-listed-for-other-leaf", [sig("A", L1)] + script, [(("xonly", "A"), (PyVec([L2]), src("A")))],
+         ([(("xonly", "A"), ([L2, L1], src("A")))], None, [(Term("cb"), Term("leafscript"))])),
+        ("script-spend|leaf-already-listed", [sig("A", L1)] + script, [(("xonly", "A"), (PyVec([L1]), src("A")))],
+         ([(("xonly", "A"), ([L1], src("A")))], None, [(Term("cb"), Term("leafscript"))])),
+    ]
+    n = 0
+    for name, template, before, (want_o, want_ik, want_s) in cases:
+        dv = Adt("descriptor::Descriptor", "Tr", {"0": Term("tr")})
+        plan = Adt("plan::Plan", "Plan", {"template": PyVec(template), "absolute_timelock": NONE, "relative_timelock": NONE, "descriptor": dv})
+        item = mk_input("item")
+        item.fields["tap_key_origins"] = PyMap(list(before))
+        item.fields["tap_scripts"] = PyMap([])
+        item.fields["tap_internal_key"] = NONE
+        item.fields["tap_merkle_root"] = NONE
+        m = Machine(F, strict=True, hooks=h)
+        n += 1
+        try:
+            m.call_path(fn, [plan, item])
+        except Unsupported as e:
+            chk.fail(R, "unanalysable:" + name, "unanalysable: %s" % e, where=e.where, kind="unanalysable")
+            continue
+        except Panic as e:
+            chk.fail(R, name, "panic: %s" % e, where="src/plan.rs")
+            continue
+        got_o = []
+        for k, v in deref(item.fields["tap_key_origins"]).pairs:
+            v = deref(v)
+            got_o.append((deref(k), ([deref(x) for x in deref(v[0]).items], deref(v[1]))))
+        got_s = [(deref(k), deref(deref(v)[0])) for k, v in deref(item.fields["tap_scripts"]).pairs]
+        ik = deref(item.fields["tap_internal_key"])
+        bad = []
+        if sorted(map(repr, got_o)) != sorted(map(repr, want_o)):
+            bad.append("tap_key_origins = %r, expected %r" % (got_o, want_o))
+        if repr(got_s) != repr(want_s):
+            bad.append("tap_scripts = %r, expected %r" % (got_s, want_s))
+        if (want_ik is None and ik.variant != "None") or (want_ik is not None and repr(ik) != repr(want_ik)):
+            bad.append("tap_internal_key = %r" % (ik,))
+        mr = deref(item.fields["tap_merkle_root"])
+        if repr(mr) != repr(some(Term("merkle_root"))):
+            bad.append("tap_merkle_root = %r" % (mr,))
+        chk.obligation(R, not bad, name, "; ".join(bad)[:600], where="src/plan.rs")
+    chk.floor(R, "plans", n, 5)
+
+
 # ---- R14.12 what the finalizer's satisfier finds in a PSBT input ---------------------------------------------------------
 
 def check_psbt_satisfier(chk, F):
@@ -1692,3 +1773,4 @@ def run(chk):
         chk.guard("R14.14", "extract", check_extract, chk, F)
         chk.guard("R14.15", "update-output", check_update_output, chk, F)
         chk.guard("R14.16", "sanity-check", check_sanity, chk, F)
+        chk.guard("R14.17", "plan-updater-taproot", check_plan_updater_taproot, chk, F)
